@@ -75,6 +75,11 @@ def eval_atmos(row):
     for m, want in row['ffm2'].items():
         got = float(np.asarray(get_SLS_equivalent_fuel_flow(np.array([2.0]), np.array([P]), np.array([theta * 288.15]), np.array([int(m) / 100.0]))).ravel()[0])
         cmp('ffm2:factor', f'FFM2 sea-level equivalent of 1 kg/s per engine at {h:g} m, Mach {int(m) / 100:g}', got, want / 1e6)
+        # the same state in other units with the matching sea-level reference (Atmos.tla Ffm2Units): hPa / degrees Rankine,
+        # all four engines of a four-engined aircraft, the exponent given explicitly
+        got_u = float(np.asarray(get_SLS_equivalent_fuel_flow(np.array([4.0]), np.array([P / 100.0]), np.array([theta * 288.15 * 1.8]), np.array([int(m) / 100.0]),
+                                                              z=3.8, P_SL=1013.25, T_SL=518.67, n_eng=4)).ravel()[0])
+        cmp('ffm2:factor:other-units', f'FFM2 sea-level equivalent of 1 kg/s per engine at {h:g} m, Mach {int(m) / 100:g}, state given in hPa / deg R with P_SL=1013.25, T_SL=518.67, n_eng=4', got_u, want / 1e6)
     ff_cal = tmv(0.1, 0.3, 0.9, 1.1)
     for d in row['hcco']:
         T = theta * 288.15 + float(d)
